@@ -2038,6 +2038,54 @@ def _run_ir_uncached(src, names):
     return vals
 
 
+def query_arrays(cfile, names):
+    """constant arrays of integers defined (possibly `static`) in one .c file, as the compiler lays them out:
+    the translation unit is compiled to LLVM IR together with one signedness probe per array, and the initialiser
+    of @name is read back (every element, including the terminating NUL of a string literal initialiser)."""
+    if not names:
+        return {}
+    src = '#include "%s"\n' % os.path.join(astdump.REPO, cfile)
+    for i, nm in enumerate(names):
+        src += "const int verif_sg_%d = ((__typeof__(%s[0]))-1 < 0);\n" % (i, nm)
+        src += "const unsigned long long verif_ew_%d = sizeof(%s[0]);\n" % (i, nm)
+        src += "const unsigned long long verif_ne_%d = sizeof(%s) / sizeof(%s[0]);\n" % (i, nm, nm)
+    rc, out, err = _cached_clang_ir(src)
+    if rc != 0:
+        raise Unsupported("array query failed for %s in %s: %s" % (names, cfile, err[-800:]))
+    sg = dict(re.findall(r"@verif_sg_(\d+) = .*?constant i32 (-?\d+)", out))
+    ew = dict(re.findall(r"@verif_ew_(\d+) = .*?constant i64 (-?\d+)", out))
+    ne = dict(re.findall(r"@verif_ne_(\d+) = .*?constant i64 (-?\d+)", out))
+    res = {}
+    for i, nm in enumerate(names):
+        m = re.search(r"^@%s = [^\n]*?constant \[(\d+) x i(\d+)\] (c\"((?:[^\"\\]|\\[0-9A-Fa-f]{2})*)\"|\[([^\]]*)\]|zeroinitializer)"
+                      % re.escape(nm), out, flags=re.M)
+        if not m:
+            raise Unsupported("array %s of %s: no constant integer array initialiser in the IR" % (nm, cfile))
+        n, bits = int(m.group(1)), int(m.group(2))
+        if m.group(3).startswith('c"'):
+            body = m.group(4)
+            vals = []
+            k = 0
+            while k < len(body):
+                if body[k] == "\\":
+                    vals.append(int(body[k + 1:k + 3], 16))
+                    k += 3
+                else:
+                    vals.append(ord(body[k]))
+                    k += 1
+        elif m.group(3) == "zeroinitializer":
+            vals = [0] * n
+        else:
+            vals = [int(x) % (1 << bits) for x in re.findall(r"i\d+ (-?\d+)", m.group(5))]
+        if len(vals) != n or n != int(ne[str(i)]) or bits != 8 * int(ew[str(i)]):
+            raise Unsupported("array %s of %s: initialiser has %d elements of %d bits, sizeof says %s of %s bytes"
+                              % (nm, cfile, len(vals), bits, ne.get(str(i)), ew.get(str(i))))
+        if int(sg[str(i)]):
+            vals = [v - (1 << bits) if v >= (1 << (bits - 1)) else v for v in vals]
+        res[nm] = vals
+    return res
+
+
 def query_types(names):
     src = '#include "internal.h"\n'
     for i, nm in enumerate(names):
@@ -2121,10 +2169,23 @@ def generate(cfgpath, outdir):
         # per-module constants (macros / enum constants evaluated by the compiler)
         mconsts = list(mod.get("constants", []))
         if mconsts:
-            mv = query_consts(mconsts, cfg.get("constants_header", ""))
+            hdr = cfg.get("constants_header", "")
+            if mod.get("constants_from_source"):
+                # `static const` objects of the module's .c file: evaluate them inside that translation unit
+                hdr += '#include "%s"\n' % os.path.join(astdump.REPO, mod["file"])
+            mv = query_consts(mconsts, hdr)
             for nm in mconsts:
                 out.append("Definition %s : Z := %d." % (sanitize(mod.get("const_rename", {}).get(nm, nm)), mv[nm]))
             out.append("")
+        if mod.get("arrays"):
+            try:
+                av = query_arrays(mod["file"], list(mod["arrays"]))
+                for nm in mod["arrays"]:
+                    out.append("Definition %s : list Z :=\n  [%s]." % (sanitize(nm), "; ".join(
+                        ("(%d)" % v if v < 0 else "%d" % v) for v in av[nm])))
+                out.append("")
+            except Unsupported as e:
+                errors.append("%s: %s" % (mod["name"], e))
         for pre in mod.get("prelude", []):
             out.append(pre)
         for fname in tr.order:
